@@ -18,7 +18,12 @@ def main() -> int:
     with open(path) as f:
         rec = json.load(f)
     mod = importlib.import_module(f"mc.checks.{rec['property'].lower()}")
-    found = mod.replay(rec)
+    if rec.get("shard") is not None:
+        # history-dependent violation: re-run the enclosing shard from this fresh interpreter
+        res = mod.run_shard(rec["shard"], rec.get("tier", "quick"), rec.get("seed", 0))
+        found = [v for v in res.violations if v["kind"] == rec["kind"]] or res.violations
+    else:
+        found = mod.replay(rec)
     if found:
         print(f"VIOLATION property={rec['property']} replay={os.path.abspath(path)}")
         for v in found[:5]:
